@@ -962,7 +962,22 @@ func ruleR04d(c *Check) {
 			}
 		}
 		if allNB {
-			c.OK("R04d", key, fmt.Sprintf("all %d sends are non-blocking (select with default)", len(ci.sends)), c.P.InstrPos(mk))
+			// a send that never blocks drops the error when the buffer is full: the buffer must have room
+			// for at least one, or every error is lost and the join reports success
+			atLeastOne := false
+			switch sz := mk.Size.(type) {
+			case *ssa.Const:
+				atLeastOne = sz.Int64() >= 1
+			case *ssa.BinOp:
+				if sz.Op == token.ADD {
+					for _, side := range []ssa.Value{sz.X, sz.Y} {
+						if k, ok := side.(*ssa.Const); ok && k.Int64() >= 1 {
+							atLeastOne = true
+						}
+					}
+				}
+			}
+			c.Require(atLeastOne, "R04d", key, fmt.Sprintf("all %d sends are non-blocking (select with default) and the buffer holds at least one error", len(ci.sends)), "every send on this error channel is non-blocking but its capacity can be zero: with an empty buffer each error is dropped on the floor and the operation reports success although a goroutine failed (e.g. a directory restored with files missing)", c.P.InstrPos(mk))
 			continue
 		}
 		// (c) drained concurrently: a receive on the channel in the owner reachable without passing WaitGroup.Wait
